@@ -607,7 +607,7 @@ def float_repr(run, self):
     t = z3.simplify(self.t)
     if z3.is_fp_value(t):
         return VStr(str, repr(_se().fp_to_py(t)))
-    s_ = run.fresh("float_text", z3.StringSort())
+    s_ = run.fresh("hv_float_text", z3.StringSort())
     run.ghost.setdefault("rendered_floats", {})[s_.get_id()] = self.t
     run.assume(z3.Not(z3.Or(z3.PrefixOf(z3.StringVal("0x"), s_), z3.PrefixOf(z3.StringVal("0X"), s_),
                             z3.PrefixOf(z3.StringVal("-0x"), s_), z3.PrefixOf(z3.StringVal("-0X"), s_))))
@@ -1045,8 +1045,28 @@ def bytes_contains(run, self, item):
     if isinstance(item, VBytes):
         return mk_bool(run, z3.Contains(self.t, item.t))
     if isinstance(item, VInt):
-        raise Unsupported("int in bytes")
+        if run.branch(z3.Or(item.t < 0, item.t > 255)):
+            run.throw(ValueError, "byte must be in range(0, 256)")
+        return mk_bool(run, z3.Contains(self.t, z3.Unit(z3.Int2BV(item.t, 8))))
     run.throw(TypeError, "a bytes-like object is required")
+
+
+def _bytes_affix(name, fn):
+    def m(run, self, other, *rest):
+        if rest:
+            raise Unsupported(f"bytes.{name} with start/end")
+        if isinstance(other, VBytes):
+            return mk_bool(run, fn(other.t, self.t))
+        if isinstance(other, VTuple):
+            raise Unsupported(f"bytes.{name} with a tuple")
+        run.throw(TypeError, f"{name} first arg must be bytes or a tuple of bytes")
+    return m
+
+
+METHODS[(bytes, "startswith")] = _bytes_affix("startswith", lambda p_, s_: z3.PrefixOf(p_, s_))
+METHODS[(bytes, "endswith")] = _bytes_affix("endswith", lambda p_, s_: z3.SuffixOf(p_, s_))
+METHODS[(type(None), "__repr__")] = lambda run, self: VStr(str, "None")
+METHODS[(type(None), "__str__")] = lambda run, self: VStr(str, "None")
 
 
 @method(bytes, "decode")
